@@ -166,6 +166,10 @@ GRID = [
     {"unique_id": 8, "s": "dicksonx", "s2": "dixon", "d": None, "lat": None, "lon": -0.12, "n": None, "email": None, "pc": None},
     {"unique_id": 9, "s": None, "s2": "jones", "d": "1990-01-15", "lat": 51.50, "lon": None, "n": 100, "email": "martha@x.org", "pc": "AB1 2CD"},
     {"unique_id": 10, "s": "", "s2": "", "d": "1989-12-31", "lat": 0.0, "lon": 0.0, "n": 1, "email": "", "pc": ""},
+    # short values next to the empty string: edit distance('', 'al') = 2 and ('', 'b') = 1 are WITHIN the thresholds used below, so an engine
+    # that treats '' as NULL in its similarity functions puts these pairs in another level than one that treats it as a value
+    {"unique_id": 11, "s": "al", "s2": "b", "d": "1989-12-30", "lat": 0.0, "lon": 0.1, "n": 2, "email": "a@b.c", "pc": "A"},
+    {"unique_id": 12, "s": "b", "s2": "al", "d": "1990-01-01", "lat": 0.1, "lon": 0.0, "n": 3, "email": "b@b.c", "pc": "B"},
 ]
 for _r in GRID:
     _r["f"] = None if _r["n"] is None else _r["n"] + 0.5
